@@ -1036,7 +1036,17 @@ def gen_cases(rng, tier):
     return resolve(items)
 
 
+def compare(model_out, impl_out):
+    """equal texts; one exception for codec correspondence on DAMAGED zlib streams: the assumption about flate2 is
+    implements_inflate (flate2 returns the RFC decoder's answer wherever the RFC decoder accepts), so where the Gallina
+    decoder rejects a stream flate2 may still accept it (miniz_oxide reads a match that reaches back before the start of the
+    output as zeros, e.g. 7801621845440300000000ffff63180544030002580001, which zlib rejects as 'invalid distance too far
+    back' like the Gallina decoder does; lopdf ignores decoder errors anyway).  LZW (lzwdec) stays exact in both directions."""
+    return model_out == impl_out or (model_out == '(zdec err)' and impl_out.startswith('(zdec (ok '))
+
+
 SPEC = {
+    'compare': compare,
     'gen_parts': ['Filters'],
     'allowed_axioms': (),
     'runner': 'c09',
